@@ -221,6 +221,9 @@ var pureFuncs = map[string]bool{
 
 // dynamicCall: call through a function value that is not statically known.
 func (x *Exec) dynamicCall(cs *callSite, fv ssa.Value, v *Val) *Val {
+	if isContextCancel(fv) {
+		return x.freshResult(cs.st, "cancel", cs.res)
+	}
 	// record the call event for contracts that speak about called(f)
 	name := dynName(fv)
 	if name != "" {
@@ -628,7 +631,11 @@ func (x *Exec) applyContract(cs *callSite, callee *ssa.Function, c *FuncContract
 		}
 		mods = m2
 	}
-	x.havocMods(cs.fr, st, mods, "call")
+	if c.Opts["trusted"] == "true" && strings.Contains(c.Opts["modifies"], "ext") {
+		x.havocExternal(cs, "call")
+	} else {
+		x.havocMods(cs.fr, st, mods, "call")
+	}
 	res := x.freshResult(st, "res_"+callee.Name(), cs.res)
 	// postconditions
 	env2 := &CEnv{x: x, st: st, old: old, vars: map[string]*CV{}, fn: callee, pkg: env.pkg}
@@ -647,6 +654,7 @@ func (x *Exec) applyContract(cs *callSite, callee *ssa.Function, c *FuncContract
 		}
 		x.assume(st, t)
 	}
+	x.afterCall(cs, callee.Name(), old)
 	if view != "" && view != "V_" {
 		for _, n := range []string{"cur", "hash", "rows"} {
 			st.ghost[view+n] = st.ghost["V_"+n]
@@ -741,6 +749,10 @@ func (x *Exec) funcMods(fn *ssa.Function) *modSet {
 		// trusted contract with a declared frame
 		for _, what := range strings.Split(c.Opts["modifies"], ",") {
 			switch what {
+			case "ext":
+				m.extHeaps = true
+			case "all":
+				m.allHeaps = true
 			case "none":
 			case "maps":
 				for h := range x.heapSorts {
@@ -889,6 +901,9 @@ func (x *Exec) modOfCall(m *modSet, cc *ssa.CallCommon) {
 	notePassed := func() {
 		for _, a := range cc.Args {
 			t := a.Type()
+			if mi, ok := a.(*ssa.MakeInterface); ok {
+				t = mi.X.Type()
+			}
 			for depth := 0; depth < 3 && t != nil; depth++ {
 				switch u := t.Underlying().(type) {
 				case *types.Pointer:
@@ -907,6 +922,10 @@ func (x *Exec) modOfCall(m *modSet, cc *ssa.CallCommon) {
 		notePassed()
 	} else if f, ok := cc.Value.(*ssa.Function); ok && !x.inlinableStatic(f) && x.w.contractOf(f) == nil {
 		if _, modelled := libModels[funcKey(f)]; !modelled {
+			notePassed()
+		}
+	} else if f, ok := cc.Value.(*ssa.Function); ok {
+		if c := x.w.contractOf(f); c != nil && c.Opts["trusted"] == "true" && strings.Contains(c.Opts["modifies"], "ext") {
 			notePassed()
 		}
 	}
@@ -943,6 +962,9 @@ func (x *Exec) modOfCall(m *modSet, cc *ssa.CallCommon) {
 		x.modOfFunc(m, callee.Fn.(*ssa.Function))
 	default:
 		// dynamic
+		if isContextCancel(cc.Value) {
+			return
+		}
 		if n := dynName(cc.Value); n != "" {
 			m.ghost["called_"+n] = true
 		}
@@ -1070,6 +1092,10 @@ func (x *Exec) havocExternal(cs *callSite, why string) {
 		}
 	}
 	for _, a := range cs.cc.Args {
+		if mi, ok := a.(*ssa.MakeInterface); ok {
+			note(mi.X.Type())
+			continue
+		}
 		note(a.Type())
 	}
 	if cs.cc.IsInvoke() {
@@ -1124,4 +1150,25 @@ func (x *Exec) atCall(cs *callSite, callee *ssa.Function) {
 		}
 		x.check(cs.st, "assert", x.oblName(cs.fr, name, cs.pos), t, clauseProps(cs.fr, cl), cl.Text, x.pos(cs.pos))
 	}
+}
+
+// isContextCancel: the cancel function returned by context.WithTimeout/WithCancel/WithDeadline.
+func isContextCancel(v ssa.Value) bool {
+	ex, ok := v.(*ssa.Extract)
+	if !ok {
+		return false
+	}
+	call, ok := ex.Tuple.(*ssa.Call)
+	if !ok {
+		return false
+	}
+	fn, ok := call.Call.Value.(*ssa.Function)
+	if !ok {
+		return false
+	}
+	switch fn.String() {
+	case "context.WithTimeout", "context.WithCancel", "context.WithDeadline":
+		return ex.Index == 1
+	}
+	return false
 }
